@@ -175,6 +175,15 @@ class NetworkXPropertyGraph(ABCPropertyGraph, NetworkXMixin):
         """
         A node can be given a new id only if no other node of the graph uses it
         """
+        # identity properties cannot be blanked, and a single node is not moved to another graph by rewriting its
+        # graph id (graphs are re-keyed as a whole, with update_nodes_property)
+        for k in ABCPropertyGraph.NO_UNSET_PROPERTIES:
+            if k in props and props[k] is None:
+                raise PropertyGraphQueryException(graph_id=self.graph_id, node_id=node_id,
+                                                  msg=f"Unable to set property {k} to None")
+        if props.get(ABCPropertyGraph.GRAPH_ID, self.graph_id) != self.graph_id:
+            raise PropertyGraphQueryException(graph_id=self.graph_id, node_id=node_id,
+                                              msg="Unable to change the graph id of a single node")
         new_id = props.get(ABCPropertyGraph.NODE_ID, node_id)
         if new_id != node_id and len(list(nxq.search_nodes(self.storage.get_graph(self.graph_id),
                                                            {'and': [
@@ -217,6 +226,9 @@ class NetworkXPropertyGraph(ABCPropertyGraph, NetworkXMixin):
         if prop_name == self.NETWORKX_LABEL:
             raise PropertyGraphQueryException(graph_id=self.graph_id, node_id=None,
                                               msg=f"Changing {self.NETWORKX_LABEL} property is not permitted")
+        if prop_name == ABCPropertyGraph.NODE_ID and len(graph_nodes) > 1:
+            raise PropertyGraphQueryException(graph_id=self.graph_id, node_id=None,
+                                              msg="Unable to give all nodes of a graph the same node id")
         for n in graph_nodes:
             self.storage.get_graph(self.graph_id).nodes[n][prop_name] = prop_val
 
